@@ -419,3 +419,56 @@ pub fn logical_writes(events: &[HookEvent], suffix: &str) -> Vec<(u64, u64)> {
 pub fn write_file(p: &Path, data: &[u8]) {
     std::fs::write(p, data).unwrap_or_else(|e| panic!("harness: write {}: {}", p.display(), e));
 }
+
+
+// ---------------------------------------------------------------------------------------
+// named pipes as input files
+
+/// A named pipe at `path` fed with `data` by a thread of the harness: a file the command under test can only read
+/// sequentially and whose metadata says nothing about its length (st_size 0).
+pub struct FifoFeeder {
+    path: PathBuf,
+    thread: Option<std::thread::JoinHandle<()>>,
+}
+impl FifoFeeder {
+    pub fn start(path: &Path, data: Vec<u8>) -> Result<FifoFeeder, String> {
+        let _ = std::fs::remove_file(path);
+        let cpath = std::ffi::CString::new(path.display().to_string()).unwrap();
+        if unsafe { libc::mkfifo(cpath.as_ptr(), 0o600) } != 0 {
+            return Err("harness: mkfifo failed".into());
+        }
+        // the writer's open() blocks until the command opens the pipe for reading; closing it gives the reader end-of-file.
+        // (If the command never opens it, `finish` does, so the thread always ends.)
+        let p = path.to_path_buf();
+        let thread = std::thread::spawn(move || {
+            if let Ok(mut f) = std::fs::OpenOptions::new().write(true).open(&p) {
+                let _ = f.write_all(&data);
+            }
+        });
+        Ok(FifoFeeder { path: path.to_path_buf(), thread: Some(thread) })
+    }
+    /// call after the command has exited: lets the writer finish (draining what the command did not read) and removes the pipe
+    pub fn finish(self) {
+        drop(self)
+    }
+}
+impl Drop for FifoFeeder {
+    fn drop(&mut self) {
+        use std::os::unix::fs::OpenOptionsExt;
+        if let Some(t) = self.thread.take() {
+            if let Ok(mut f) = std::fs::OpenOptions::new().read(true).custom_flags(libc::O_NONBLOCK).open(&self.path) {
+                let mut sink = vec![0u8; 1 << 16];
+                let t0 = std::time::Instant::now();
+                while !t.is_finished() && t0.elapsed().as_secs() < 20 {
+                    if !matches!(f.read(&mut sink), Ok(n) if n > 0) {
+                        std::thread::sleep(Duration::from_millis(2));
+                    }
+                }
+            }
+            if t.is_finished() {
+                let _ = t.join();
+            }
+        }
+        let _ = std::fs::remove_file(&self.path);
+    }
+}
